@@ -70,7 +70,9 @@ def compare_with_model(agg, ev, tree, family, modes=("min", "noisy"), seed=0):
                             return m
                         agg.count("both_fail_different_site")
             elif got[1] != "runtime":
-                if count_failure_sites(tree) <= 1:
+                # a function value that cannot be manifested is a failure site of its own: whether it or an explicit
+                # error elsewhere in the result is reported first is not fixed by the specification
+                if count_failure_sites(tree) <= 1 and "manifest a function" not in str(m[2]):
                     agg.violation({"kind": "wrong_error", "model": "runtime", "impl": got[1]},
                                   dict(desc, expected=[m[1], m[2]], got=list(got)), {"script": r.lines})
                     return m
@@ -304,6 +306,201 @@ def history_shard(args):
     return agg
 
 
+# ------------------------------------------------------------------------------------------------
+# ill-typed operands: a typed program in which one sub-expression is replaced by a value of another type.  The
+# specification makes most of these fail (and some not: `==` across types, string + anything, lazily unused parts);
+# the model decides.
+
+def wrong_values():
+    num, st = genprog.num, genprog.s
+    return [num(1), num(0), st("s"), st(""), ("true",), ("false",), ("null",), ("arr", [num(1)]), ("arr", []),
+            ("obj", [("field", ("id", "a"), False, 1, num(1))]), ("obj", []),
+            ("func", [("param", "zq", None)], ("var", "zq"))]
+
+
+def inject_type_fault(tree, rng):
+    sites = []
+
+    def collect(node):
+        def f(child, role):
+            sites.append((child, role, node[0] + (":" + node[1] if node[0] in ("bin", "un") else "")))
+            collect(child)
+            return child
+        genast.map_children(node, f)
+    collect(tree)
+    if not sites:
+        return None
+    target, role, parent = rng.choice(sites)
+    bad = rng.choice(wrong_values())
+    done = [False]
+
+    def walk(node):
+        def f(child, r):
+            if child is target and not done[0]:
+                done[0] = True
+                return bad
+            return walk(child)
+        return genast.map_children(node, f)
+    new = walk(tree)
+    return (new, parent + "/" + role, bad[0]) if done[0] else None
+
+
+def operand_matrix():
+    """Every binary / unary operator, if, index, slice, call, comprehension, assert, in, field name with every
+    combination of operand types (both short-circuit states for && and ||)."""
+    vals = wrong_values()
+    out = []
+    for op in genast.BIN_PREC:
+        for a in vals:
+            for b in vals:
+                out.append(("bin:" + op, ("bin", op, a, b)))
+    for op in ("-", "+", "!", "~"):
+        for a in vals:
+            out.append(("un:" + op, ("un", op, a)))
+    one, two = genprog.num(1), genprog.num(2)
+    for a in vals:
+        out.append(("if", ("if", a, one, two)))
+        out.append(("index_arr", ("index", ("arr", [one, two]), a)))
+        out.append(("index_obj", ("index", ("obj", [("field", ("id", "s"), False, 1, one)]), a)))
+        out.append(("index_str", ("index", genprog.s("xyz"), a)))
+        out.append(("index_of", ("index", a, genprog.num(0))))
+        out.append(("dot_of", ("dot", a, "a")))
+        out.append(("call_of", ("call", a, [("pos", one)], False)))
+        out.append(("arrcomp_over", ("arrcomp", ("var", "cv"), [("sfor", "cv", a)])))
+        out.append(("arrcomp_if", ("arrcomp", ("var", "cv"), [("sfor", "cv", ("arr", [one])), ("sif", a)])))
+        out.append(("assert_cond", ("assert", a, None, one)))
+        out.append(("assert_msg", ("assert", ("false",), a, one)))
+        out.append(("error_of", ("error", a)))
+        out.append(("fieldname", ("obj", [("field", ("ename", a), False, 1, one)])))
+        out.append(("objcomp_key", ("objcomp", [], a, False, one, [], [("sfor", "cv", ("arr", [one]))])))
+        out.append(("objext_of", ("objext", a, ("obj", [("field", ("id", "b"), False, 1, two)]))))
+        out.append(("massert_cond", ("dot", ("obj", [("massert", a, None), ("field", ("id", "a"), False, 1, one)]), "a")))
+        for b in (None, one):
+            out.append(("slice_of", ("slice", a, b, None, None)))
+            out.append(("slice_arg", ("slice", ("arr", [one, two]), a, b, None)))
+            out.append(("slice_step", ("slice", ("arr", [one, two]), None, b, a)))
+        out.append(("plus_field", ("bin", "+", ("obj", [("field", ("id", "a"), False, 1, a)]),
+                                   ("obj", [("field", ("id", "a"), True, 1, one)]))))
+        out.append(("insuper", ("bin", "+", ("obj", [("field", ("id", "a"), False, 1, one)]),
+                                 ("obj", [("field", ("id", "b"), False, 1, ("insuper", a))]))))
+        out.append(("superidx", ("bin", "+", ("obj", [("field", ("id", "a"), False, 1, one)]),
+                                  ("obj", [("field", ("id", "b"), False, 1, ("superidx", a))]))))
+    return out
+
+
+def type_fault_shard(args):
+    seed, n, cases = args
+    rng = random.Random(seed)
+    agg = Agg()
+    ev = Ev(agg)
+    try:
+        for name, tree in cases:
+            m = compare_with_model(agg, ev, tree, "operand_matrix", modes=("min",))
+            agg.add("operand_matrix_cells", (name, m[0] if m[0] != "E" else m[1]))
+        for i in range(n):
+            g = genprog.Gen(rng, depth=rng.choice([2, 3, 3]), obj_heavy=rng.random() < 0.3)
+            inj = inject_type_fault(g.top(), rng)
+            if inj is None:
+                continue
+            tree, where, what = inj
+            m = compare_with_model(agg, ev, tree, "type_fault", modes=("min",), seed=rng.getrandbits(32))
+            agg.add("type_fault_sites", (where, what))
+            agg.count("type_fault:" + (m[0] if m[0] != "E" else m[1]))
+            if i < 1:
+                agg.sample({"leg": "type_fault", "program": genast.render(tree, "min")[0].decode("utf-8", "replace")[:300],
+                            "site": where, "model": repr(m[:3])[:200]})
+    finally:
+        ev.close()
+    return agg
+
+
+# ------------------------------------------------------------------------------------------------
+# nesting towers: objects nested to depth 1..5 through every carrier; each level has its own t; the innermost
+# object reads $ / self / super in every reader position; the outermost object may be extended afterwards.
+
+def tower(rng, depth, reader_kind):
+    num, st = genprog.num, genprog.s
+    carriers = ["field", "array", "local", "call", "arrcomp", "plus", "objext", "objcomp", "hidden", "method"]
+    readers = {
+        "dollar_t": ("dot", ("dollar",), "t"),
+        "dollar_idx": ("index", ("dollar",), st("t")),
+        "self_t": ("dot", ("self",), "t"),
+        "dollar_in_local": ("local", [("bind", "lv", None, ("dot", ("dollar",), "t"))], ("var", "lv")),
+        "dollar_in_func": ("call", ("func", [("param", "pq", ("dot", ("dollar",), "t"))], ("var", "pq")), [], False),
+        "dollar_eq": ("bin", "==", ("dot", ("dollar",), "t"), ("dot", ("self",), "t")),
+        "dollar_in": ("bin", "in", st("t"), ("dollar",)),
+        "dollar_has_n": ("bin", "in", st("n"), ("dollar",)),
+    }
+    used = []
+
+    def level(i):
+        t = ("field", ("id", "t"), False, 1, num(i))
+        if i == depth:
+            ms = [t, ("field", ("id", "r"), False, 1, readers[reader_kind])]
+            if rng.random() < 0.3:
+                ms.append(("mlocal", ("bind", "ol", None, ("dot", ("dollar",), "t"))))
+                ms.append(("field", ("id", "q"), False, 1, ("var", "ol")))
+            if rng.random() < 0.2:
+                ms.append(("massert", ("bin", ">=", ("dot", ("dollar",), "t"), num(0)), st("top-t")))
+            return ("obj", ms)
+        inner = level(i + 1)
+        c = rng.choice(carriers)
+        used.append(c)
+        if c == "field":
+            n = inner
+        elif c == "array":
+            n = ("index", ("arr", [num(0), inner]), num(1))
+        elif c == "local":
+            n = ("local", [("bind", "w%d" % i, None, inner)], ("var", "w%d" % i))
+        elif c == "call":
+            n = ("call", ("func", [("param", "u%d" % i, None)], inner), [("pos", num(0))], False)
+        elif c == "arrcomp":
+            n = ("index", ("arrcomp", inner, [("sfor", "cv%d" % i, ("arr", [num(0)]))]), num(0))
+        elif c == "plus":
+            n = ("bin", "+", ("obj", [("field", ("id", "t"), False, 1, num(50 + i))]), inner)
+        elif c == "objext":
+            n = ("objext", ("obj", [("field", ("id", "z"), False, 1, num(0))]), inner)
+        elif c == "objcomp":
+            n = ("dot", ("objcomp", [], ("var", "ck%d" % i), False, inner, [], [("sfor", "ck%d" % i, ("arr", [st("k")]))]), "k")
+        elif c == "hidden":
+            return ("obj", [t, ("field", ("id", "h"), False, 2, inner), ("field", ("id", "n"), False, 1, ("dot", ("self",), "h"))])
+        else:
+            return ("obj", [t, ("ffunc", ("id", "mk"), [], 2, inner), ("field", ("id", "n"), False, 1, ("call", ("dot", ("self",), "mk"), [], False))])
+        return ("obj", [t, ("field", ("id", "n"), False, 1, n)])
+    top = level(1)
+    k = rng.random()
+    if k < 0.3:
+        top = ("bin", "+", top, ("obj", [("field", ("id", "t"), False, 1, num(100))]))
+    elif k < 0.4:
+        top = ("bin", "+", ("obj", [("field", ("id", "t"), False, 1, num(200)), ("field", ("id", "zz"), False, 1, num(1))]), top)
+    elif k < 0.5:
+        top = ("index", ("arr", [top]), num(0))
+    return top, used
+
+
+def tower_shard(args):
+    seed, n = args
+    rng = random.Random(seed)
+    agg = Agg()
+    ev = Ev(agg)
+    kinds = ["dollar_t", "dollar_idx", "self_t", "dollar_in_local", "dollar_in_func", "dollar_eq", "dollar_in", "dollar_has_n"]
+    try:
+        for i in range(n):
+            depth = 1 + i % 5
+            rk = kinds[(i // 5) % len(kinds)]
+            tree, used = tower(rng, depth, rk)
+            m = compare_with_model(agg, ev, tree, "nesting_tower", modes=("min",), seed=rng.getrandbits(32))
+            agg.add("tower_cells", (depth, rk))
+            for c in used:
+                agg.add("tower_carriers", c)
+            if i < 1:
+                agg.sample({"leg": "nesting_tower", "program": genast.render(tree, "min")[0].decode("utf-8", "replace")[:400],
+                            "model": repr(m[:3])[:200]})
+    finally:
+        ev.close()
+    return agg
+
+
 def templates_shard(args):
     seed, _ = args
     agg = Agg()
@@ -340,6 +537,14 @@ def run(tier, seed):
     nh = 6_000 if quick else 300_000
     for a in common.pmap(history_shard, [(seed * 1931 + i, nh // 32) for i in range(32)]):
         total.merge(a)
+    om = operand_matrix()
+    total.count("operand_matrix_cases", len(om))
+    nt = 6_000 if quick else 300_000
+    for a in common.pmap(type_fault_shard, [(seed * 1933 + i, nt // 32, om[i::32]) for i in range(32)]):
+        total.merge(a)
+    nw = 3_200 if quick else 100_000
+    for a in common.pmap(tower_shard, [(seed * 1949 + i, nw // 16) for i in range(16)]):
+        total.merge(a)
     for a in common.pmap(templates_shard, [(seed, 0)]):
         total.merge(a)
     rule = ("typed random programs over the core grammar (numbers, booleans, strings, arrays, objects with inheritance, "
@@ -349,7 +554,11 @@ def run(tier, seed):
             "from the specification; compared: manifested value (Value API walk) or failure class (+ message for "
             "error/assert); plus ~80 hand-derived feature-interaction templates with values/errors derived from the "
             "specification; plus an assert-history family (objects with invariants that are compared / read / "
-            "converted, or not, before being combined with +). distinct_nontrivial = distinct generated programs on which both printings agreed with the "
+            "converted, or not, before being combined with +); an operand matrix (every binary/unary operator, if, index, slice, "
+            "call, comprehension, assert, error, field name, +:, in super with every combination of 12 operand values of all "
+            "types; both short-circuit states) and typed programs with one sub-expression replaced by a value of another type; "
+            "nesting towers (objects nested 1-5 deep through 10 carriers, the innermost reading $ / self in 8 reader positions, "
+            "the outermost optionally extended). distinct_nontrivial = distinct generated programs on which both printings agreed with the "
             "model + templates.")
     return common.finish(PROP, tier, seed, total, rule, t0, level="exploration",
                          assumptions=["driver/refinterp.py encodes the specification (trusted base); programs whose number "
